@@ -3,6 +3,7 @@ CONSTANTS
   MaxLen <- TMaxLen
   Seeds <- TSeeds
   Pos <- MCPos
+  Tenths <- MCTenths
   NewTexts <- MCNewTexts
   FindLen <- MCFindLen
   Nums <- TNums
@@ -12,10 +13,12 @@ INVARIANT TypeOK
 INVARIANT SplitLaw
 INVARIANT RightLaw
 INVARIANT MidLaw
+INVARIANT TruncLaw
 INVARIANT ReplaceLaw
 INVARIANT FindLaw
 INVARIANT SubstLaw
 INVARIANT SubstOverlapLaw
+INVARIANT SubstEmptyLaw
 INVARIANT ConcatLaw
 INVARIANT TrimLaw
 INVARIANT IdemLaw
